@@ -1515,14 +1515,15 @@ class ClientServerConnection(ConnectionBase):
         if self.last_recv_time > 0 and t0 > self.last_recv_time + 5:
             self.status = ConnectionStatus.DROPPED
 
-        if self.time_client_hello_sent and self.connection_callback:
+        if self.time_client_hello_sent:
             # TODO: its possible for the server hello to come in after the timeout
             #   solution: uid in client hello that must be returned
             #             discard unrecognised or old server hello messages
             if t0 - self.time_client_hello_sent > self.temp_connection_timeout:
                 self.status = ConnectionStatus.DISCONNECTED
-                self.connection_callback(False)
                 self.time_client_hello_sent = 0
+                if self.connection_callback:
+                    self.connection_callback(False)
 
     def _sendClientHello(self):
         self.log.debug("send client hello")
